@@ -82,7 +82,11 @@ fn string_case(rep: &Report, s: &str, pw: &[u8], orig: &str, sk: &[u8; 32]) {
     match rust_unlock(s, pw) {
         Err(m) => rep.violation("string/panic", case, format!("panic on a {}-char key string: {}", s.chars().count(), m)),
         Ok(got) => {
-            if got.is_some() && want.is_none() {
+            let stripped: String = s.chars().filter(|c| !c.is_whitespace()).collect();
+            let tolerant = if stripped != s { r::b64_decode(&stripped).and_then(|b| r::unlock_key(&b, pw)) } else { None };
+            if got.is_some() && want.is_none() && tolerant.map(|k| k.to_vec()) == got {
+                // whitespace inside the key text tolerated and decoded to the same key: left open by the statement
+            } else if got.is_some() && want.is_none() {
                 rep.violation("string/accepted-malformed", case, format!("malformed / altered key string ({} chars) unlocks", s.chars().count()));
             } else if got.is_none() && want.is_some() && s == orig {
                 rep.violation("string/rejected-valid", case, "valid key string rejected".into());
@@ -178,6 +182,13 @@ pub fn run(rep: &'static Report) {
                 v[i] = c;
                 strs.push(v.into_iter().collect());
             }
+        }
+    }
+    for i in 0..=oc.len() {
+        for c in [' ', '\n', '='] {
+            let mut v = oc.clone();
+            v.insert(i, c);
+            strs.push(v.into_iter().collect());
         }
     }
     strs.push(orig.clone());
